@@ -408,6 +408,25 @@ fn random(args: &Args) {
         // a per-walk bias: which transactions this walk mostly plays with
         let focus: Vec<String> = (0..7).map(|_| rng.pick(&names).clone()).collect();
         let mut steps = 0;
+        // every third walk starts from a scripted structure the properties talk about (dependency chain, two
+        // parents, contract dependency, blob parent, collision with a subtree); names missing from the universe
+        // are skipped
+        const PREAMBLES: [&[&str]; 6] = [
+            &["t1", "t2", "t14"],
+            &["t1", "t6", "t19"],
+            &["t8", "t9"],
+            &["t16", "t18", "t17"],
+            &["t1", "t2", "t5", "t4"],
+            &["t6", "t19", "t1"],
+        ];
+        if walk % 3 == 0 {
+            for x in PREAMBLES[(walk as usize / 3) % PREAMBLES.len()] {
+                if w.txs.contains_key(*x) {
+                    sim.insert(&mut t, x);
+                    steps += 1;
+                }
+            }
+        }
         while steps < len {
             steps += 1;
             let snap = sim.pool.snapshot();
